@@ -98,8 +98,8 @@ def step(snap, cfg, forced=None, deviation=None, force_cond=False):
             # the latitude for UNDEFINED encodings that fail their condition does not apply to it
             info['undef_from_execution'] = True
         cpu.take_undef()
-    except RefSVC:
-        cpu.take_svc()
+    except RefSVC as ex:
+        cpu.take_svc(ex.args[0] if ex.args else None, current_cond(cpu, kind, word, row))
     except RefSMC:
         cpu.take_smc()
     except RefHypTrap:
